@@ -543,6 +543,11 @@ struct Out {
             nl();
         }
     }
+    void maybe_drop_final_newline() {     // a last line without line terminator
+        if (!decor || !ch.chance(1, 8)) return;
+        if (s.size() >= 2 && s.compare(s.size() - 2, 2, "\r\n") == 0) { s.erase(s.size() - 2); used = true; }
+        else if (!s.empty() && s.back() == '\n') { s.pop_back(); used = true; }
+    }
     void line(const std::string &body, bool allow_trailing_comment = true) {
         if (decor && ch.chance(1, 8)) { used = true; s += ch.draw(2) ? "  " : "\t"; }
         s += body;
@@ -668,6 +673,7 @@ static inline std::string write_touchstone(const Truth &t, TsStyle &st, Chooser 
         }
     }
     if (st.version == 2 && !st.omit_end) o.line(randcase("[End]", ch, D, o.used));
+    o.maybe_drop_final_newline();
     if (o.used) st.used_decoration = true;
     return o.s;
 }
@@ -734,6 +740,7 @@ static inline std::string write_npd(const Truth &t, NpdStyle &st, const std::vec
         for (size_t g = 0; g < st.groups.size(); g++) for (double x : columns[g][fi]) l += gap(ch, D, o.used) + num17(x, ch, D);
         o.line(l);
     }
+    o.maybe_drop_final_newline();
     if (o.used) st.used_decoration = true;
     return o.s;
 }
